@@ -1,7 +1,7 @@
 #!/usr/bin/env python3
 """Import and confirm a seeded change written by a seeding sub-agent.
 
-usage: tools/seedconfirm.py <ID> <n> <name> <needs-to-manifest text> [--checks C01,C03] [--no-suite]
+usage: tools/seedconfirm.py <ID> <n> <name> <needs-to-manifest text> [--checks=C01,C03] [--no-suite] [--root=/tmp/seedwork2]
 
 The agent worked in the scratch worktree /tmp/seedwork/<ID> and left out/change<n>.diff, out/demo<n>.*, out/run<n>.sh,
 out/notes<n>.md there (the demonstration scripts refer to that path, so the confirmation runs in the same worktree).
@@ -31,7 +31,11 @@ def main():
             checks = x.split("=", 1)[1].split(",")
         if x == "--no-suite":
             suite = False
-    W = "/tmp/seedwork/" + pid
+    root = "/tmp/seedwork"
+    for x in a[4:]:
+        if x.startswith("--root="):
+            root = x.split("=", 1)[1]
+    W = root + "/" + pid
     out = W + "/out"
     diff = "%s/change%s.diff" % (out, n)
     run = "%s/run%s.sh" % (out, n)
